@@ -293,3 +293,36 @@ seeded("c08-glob-relax-guard-removed", ["C08"], [(RS, """            if parent i
             return self.__glob(parent, remainder)
 """)], ["R1", "R2"])
 seeded("c08-glob-strict-raise-ignores-relax", ["C08"], [(RS, "if not matches and not Resolver.is_wildcard(name) and not self.relax:", "if not matches and not Resolver.is_wildcard(name):")], ["R1", "R2"])
+
+# ------------------------------------------------------------------ C12 / C13
+DX = "anytree/exporter/dotexporter.py"
+MX = "anytree/exporter/mermaidexporter.py"
+seeded("c12-maxlevel-truthiness", ["C12"], [(DX, "self.maxlevel - 1 if self.maxlevel is not None else None", "self.maxlevel - 1 if self.maxlevel else None")], ["D2"])
+seeded("c13-maxlevel-truthiness", ["C13"], [(MX, "self.maxlevel - 1 if self.maxlevel is not None else None", "self.maxlevel - 1 if self.maxlevel else None")], ["D2"])
+seeded("c12-edge-maxlevel-not-decremented", ["C12"], [(DX, "self.maxlevel - 1 if self.maxlevel is not None else None", "self.maxlevel if self.maxlevel is not None else None")], ["D1a"])
+seeded("c13-edge-pass-without-stop", ["C13"], [(MX, "for node in PreOrderIter(self.node, filter_=filter_, stop=stop, maxlevel=maxlevel):", "for node in PreOrderIter(self.node, filter_=filter_, maxlevel=maxlevel):")], ["D1a"])
+seeded("c13-child-guard-without-stop", ["C13"], [(MX, "if filter_(child) and not stop(child):", "if filter_(child):")], ["D1b"])
+seeded("c12-child-guard-without-filter", ["C12"], [(DX, "                if not filter_(child):\n                    continue\n", "")], ["D1b"])
+seeded("c12-edge-pass-other-filter", ["C12"], [(DX, "for node in PreOrderIter(self.node, filter_=filter_, stop=self.stop, maxlevel=maxlevel):", "for node in PreOrderIter(self.node, stop=self.stop, maxlevel=maxlevel):")], ["D1a"])
+seeded("c12-childname-not-escaped", ["C12"], [(DX, "DotExporter.esc(childname),", "childname,")], ["D3"])
+seeded("c12-esc-only-quotes", ["C12"], [(DX, '_RE_ESC = re.compile(r\'["\\\\]\')', '_RE_ESC = re.compile(r\'["]\')')], ["D3"])
+seeded("c12-unique-map-keyed-by-node", ["C12", "C17"], [(DX, "        node_id = id(node)\n        try:\n            num = self.__node_ids[node_id]\n        except KeyError:\n            num = self.__node_ids[node_id] = next(self.__node_counter)\n        return hex(num)",
+                                                       "        node_id = node\n        try:\n            num = self.__node_ids[node_id]\n        except KeyError:\n            num = self.__node_ids[node_id] = next(self.__node_counter)\n        return hex(num)")], ["D4", "T4"])
+seeded("c13-ids-reset-on-iter", ["C13"], [(MX, '        indent = " " * self.indent\n        nodenamefunc = self.nodenamefunc or self._default_nodenamefunc\n        nodefunc',
+                                           '        indent = " " * self.indent\n        self.__node_ids = {}\n        nodenamefunc = self.nodenamefunc or self._default_nodenamefunc\n        nodefunc')], ["D4"])
+seeded("c13-label-not-escaped", ["C13"], [(MX, "return '[\"%s\"]' % (MermaidExporter.esc(node.name),)", "return '[\"%s\"]' % (node.name,)")], ["D3"])
+seeded("c12-edges-before-nodes", ["C12"], [(DX, """        for node in self.__iter_nodes(indent, nodenamefunc, nodeattrfunc, filter_):
+            yield node
+        for edge in self.__iter_edges(indent, nodenamefunc, edgeattrfunc, edgetypefunc, filter_):
+            yield edge
+""", """        for edge in self.__iter_edges(indent, nodenamefunc, edgeattrfunc, edgetypefunc, filter_):
+            yield edge
+        for node in self.__iter_nodes(indent, nodenamefunc, nodeattrfunc, filter_):
+            yield node
+""")], ["D5"])
+seeded("c12-legacy-drops-kwargs", ["C12"], [("anytree/dotexport.py", "super(RenderTreeGraph, self).__init__(*args, **kwargs)", "super(RenderTreeGraph, self).__init__(*args)")], ["D5"])
+seeded("c12-option-not-stored", ["C12"], [(DX, "        self.stop = stop\n", "        self.stop = None\n")], ["D5"])
+seeded("c13-tofile-skips-lines", ["C13"], [(MX, "            for line in self:\n                file.write(\"%s\\n\" % line)\n            file.write(\"```\")", "            for line in list(self)[1:]:\n                file.write(\"%s\\n\" % line)\n            file.write(\"```\")")], ["D5"])
+benign("c12-maxlevel-none-test-flipped", ["C12"], [(DX, "self.maxlevel - 1 if self.maxlevel is not None else None", "None if self.maxlevel is None else self.maxlevel - 1")])
+benign("c13-child-guard-nested-ifs", ["C13"], [(MX, "                if filter_(child) and not stop(child):\n                    childname = nodenamefunc(child)\n                    edge = edgefunc(node, child)\n                    yield \"%s%s%s%s\" % (indent, nodename, edge, childname)",
+                                                  "                if stop(child):\n                    continue\n                if not filter_(child):\n                    continue\n                childname = nodenamefunc(child)\n                edge = edgefunc(node, child)\n                yield \"%s%s%s%s\" % (indent, nodename, edge, childname)")])
